@@ -67,7 +67,7 @@ def strata(tier):
                 break
         yield {"term": t, "sseed": j, "probe": cont}
     # literal mapping arguments: string keys incl. path-like ones, and non-string keys
-    for j, lit in enumerate([{}, {"a": 1}, {"path": [1]}, {"path": ["a"], "b": 2}, {"path.length": 3}, {"paths": [1]}, {"pathname": "x"}, {"path_to": ["a"]}, {"pathway": 1}, {"path-x": 1}, {"value": 3}, {"key": "a"}, {"keys": [1, 2]}, {"value": 1, "x": 2}, {"lower": 1}, {"N": 1},
+    for j, lit in enumerate([{}, {"a": 1}, {"path": [1]}, {"path": ["a"], "b": 2}, {"path.length": 3}, {"b": 1, "a": 2, "c": [3]}, {"z": {"y": 1, "x": 2}, "a": 0}, {"paths": [1]}, {"pathname": "x"}, {"path_to": ["a"]}, {"pathway": 1}, {"path-x": 1}, {"value": 3}, {"key": "a"}, {"keys": [1, 2]}, {"value": 1, "x": 2}, {"lower": 1}, {"N": 1},
                              {"classes": "int"}, {"items": {"a": 1}}, {"tolerance": 0.5}, {"path.map_keys": 1}, {"path.first.map_values": [1]}, {"path.a_b": 2},
                              {"x": {"path": ["a"]}}, {1: 2}, {None: 0, 2.5: "x"}, {True: [1]}, {"a": {1: 2}}]):
         for fn in ("equal_to", "not_equal_to", "in_"):
@@ -99,7 +99,7 @@ def required(m, tier):
             k = f"pair:{kind}.{pre}.{fn}"
             if st.get(k, 0) < 5:
                 out.append(f"{k} spelled {st.get(k, 0)} times")
-    for f in ("case", "type-alias", "len-alias", "in-alias", "callable-alias", "type-object", "map-for-dict", "kw-mapping"):
+    for f in ("case", "type-alias", "len-alias", "in-alias", "callable-alias", "type-object", "map-for-dict", "kw-mapping", "key-order"):
         if st.get("spelling:" + f, 0) < 30:
             out.append(f"spelling feature {f} used {st.get('spelling:' + f, 0)} times")
     for k in ("literal-mapping:str-keys", "literal-mapping:non-str-keys", "nested-lists"):
